@@ -1,5 +1,5 @@
 (* C17 — post-login redirects never leave the keymaster origin.  Property theorems only. *)
-From KM Require Import Base.Bytes Model.Dest Proofs.Dest.
+From KM Require Import Base.Bytes Model.Dest Model.DestReq Proofs.Dest Proofs.DestReq.
 
 (* For every byte string submitted as login_destination, and whether or not url.Parse accepts
    it, the Location that http.Redirect emits is same-origin under WHATWG resolution. *)
@@ -63,4 +63,36 @@ Example c17_own_host_url_falls_back :
   get_login_destination [104;116;116;112;115;58;47;47;107;46;101;47;47;101;46;120;47;97] = profile.
 Proof. vm_compute. reflexivity. Qed.
 Example c17_logout_example : logout_location false [97;38;98] = [47;63;117;115;101;114;61;97;38;98].
+Proof. vm_compute. reflexivity. Qed.
+
+(* The request as a record of channels (Model/DestReq.v): the form/query value (option), cookies, headers, a
+   non-form body, a path suffix.  Two requests that agree on the form/query channel get the same Location, from
+   loginHandler / every second-factor success path and from the provider callback of a federated login alike ... *)
+Theorem c17_other_channels_ignored : forall (parse_fails : bool) (r r' : login_req),
+  lr_form r = lr_form r' ->
+  req_location parse_fails r = req_location parse_fails r' /\
+  req_federated_location parse_fails r = req_federated_location parse_fails r'.
+Proof. exact req_location_channels. Qed.
+Print Assumptions c17_other_channels_ignored.
+(* ... that Location is same-origin whatever any channel carries ... *)
+Theorem c17_channels_same_origin : forall (parse_fails : bool) (r : login_req),
+  same_origin (req_location parse_fails r) = true /\
+  same_origin (req_federated_location parse_fails r) = true.
+Proof. exact req_location_same_origin. Qed.
+Print Assumptions c17_channels_same_origin.
+(* ... and without a form/query value it is the profile page, whatever the cookies, headers, body and path say *)
+Theorem c17_no_form_value_profile : forall (parse_fails : bool) (r : login_req),
+  form_value r = [] ->
+  req_location parse_fails r = profile /\ req_federated_location parse_fails r = profile.
+Proof. exact req_no_form_value. Qed.
+Print Assumptions c17_no_form_value_profile.
+(* a variant that falls back to a cookie named like the parameter, without the filter, is refuted *)
+Theorem c17_cookie_fallback_refuted : exists pf authority r,
+  lr_form r = None /\ same_origin (req_location_cookie_fallback pf authority r) = false.
+Proof. exact cookie_fallback_refuted. Qed.
+Print Assumptions c17_cookie_fallback_refuted.
+(* non-vacuity: a request whose only destination-like content is a hostile cookie goes to the profile page *)
+Example c17_hostile_cookie_example :
+  req_location false {| lr_form := None; lr_cookies := [(param_name, [47;47;101;46;120;47])]; lr_headers := [];
+                        lr_body := []; lr_path_suffix := [] |} = profile.
 Proof. vm_compute. reflexivity. Qed.
